@@ -215,7 +215,8 @@ Definition minimize_scan {T} (N : Num T) (func : list T -> T * T * T)
 
 (* negative_llhratio_func_nr1d_ns: (-f, -grads[ns_pidx], -grad2_ns) *)
 Definition neg_obj {T} (N : Num T) (llh : list T -> T * T * T) (x : list T) : T * T * T :=
-  let '(f, g, g2) := llh x in (mx_neg_f N f, mx_neg_grad N g, mx_neg_grad2 N g2).
+  (* ns is fit parameter 0 of the vector model: NR1dNsMinimizerImpl varies x[0] *)
+  let '(f, g, g2) := llh x in (mx_neg_f N f, mx_neg_grad N 0%Z g, mx_neg_grad2 N g2).
 
 (* TCLLHRatio.maximize with an NR minimiser: (log_lambda_max, fitparam_values, status) *)
 Definition maximize_nr {T} (N : Num T) (llh : list T -> T * T * T)
@@ -234,3 +235,22 @@ Definition maximize_gen {T} (N : Num T) {St}
   do m <- minimize N impl conv rep
             (fun x => do f <- llh x; Ok (mx_neg_f_gen N f)) bounds uniform max_reps initials;
   let '(x, fmin, st, _) := m in Ok (mx_llmax_gen N fmin, x, st).
+
+(* negative_llhratio_func_nr1d_ns spelled out: `mk v` = pmm.create_src_params_recarray(v) (created on every call),
+   `ev v rc` = evaluate(fitparam_values=v, src_params_recarray=rc) = (f, grads),
+   `g2 ns pidx rc` = calculate_ns_grad2(ns, ns_pidx, src_params_recarray=rc), `at_ v i` = v[i].
+   The plumbing (which value goes where) is the identity kernels mx_closure_* of G_minimize.v. *)
+Definition closure_nr {T V Rc : Type} (N : Num T) (mk : V -> Rc) (ev : V -> Rc -> T * (Z -> T))
+           (g2 : T -> Z -> Rc -> T) (at_ : V -> Z -> T) (ns_pidx : Z) (v : V) : T * T * T :=
+  let rc := mk v in
+  let '(f, grads) := ev v rc in
+  let ns := at_ v ns_pidx in
+  (mx_neg_f N f, mx_neg_grad N ns_pidx (grads (mx_neg_grad_idx0 N ns_pidx)), mx_neg_grad2 N (g2 ns ns_pidx rc)).
+
+(* TCLLHRatio.maximize with the NR + scan minimiser *)
+Definition maximize_scan {T} (N : Num T) (llh : list T -> T * T * T)
+           (ns_tol : T) (max_steps max_reps : Z) (bounds : list (T * T)) (p2s : list T)
+           (uniform : Z -> list T) (initials : list T)
+  : res (T * list T * nrres T) :=
+  do m <- minimize_scan N (neg_obj N llh) ns_tol max_steps max_reps bounds p2s uniform initials;
+  let '(x, fmin, st, _) := m in Ok (mx_llmax_nr N fmin, x, st).
